@@ -1,5 +1,49 @@
+/* type environment + ghost state + loop contracts for unit dns_cache_ttl
+ * (DnsCache::calculateResultTtl, calculateNegativeTtl, the TTL hand-over in DnsCache::put, ExpiringCache::set / get) */
 typedef struct { iora_rvec answers, authority, additional, a_records, aaaa_records, srv_records, naptr_records, cname_records,
                  mx_records, txt_records, ptr_records, soa_records; } DnsResult;
-typedef struct { int64_t defaultTtlSeconds_; } DnsCache;
 typedef struct { iora_tmap _cache; iora_secs _ttl; bool _evictionCallback; } ExpiringCache;
+typedef struct { int64_t defaultTtlSeconds_; ExpiringCache *cache_; } DnsCache;
+/* R21: the eviction callback is a user std::function; ghost stub: counts invocations, records the key */
 static inline void iora_cb_eviction(uint64_t k, uint64_t v) { (void)v; G_evictions++; G_evicted_key = k; }
+/* CachedDnsResult(result): the cached value is identified by a ghost id */
+uint64_t G_result_id;
+static inline uint64_t iora_cached_positive(const DnsResult *r) { (void)r; return G_result_id; }
+/* cache_->remove(key) (only present in a repaired DnsCache::put): erases the entry of that key */
+static inline void ExpiringCache_remove_stub(ExpiringCache *c, uint64_t key) { if (key == GKEY) c->_cache.has = false; }
+
+/* witness record: section GSEC (0..11 in declaration order of DnsResult), index GI - both arbitrary */
+unsigned GSEC; size_t GI;
+#define NSEC 12
+/* a record vector of a parsed message: each section count is a 16-bit field, the typed vectors collect from three sections */
+#define RVEC_MAX ((size_t)3 * 65535)
+
+/* loop k of calculateResultTtl runs over section k-1: the running minimum never grows, and once the loop has passed the
+ * witness record it is <= that record's TTL */
+#define TTL_LOOP(k, vec) IORA_LC( \
+  __CPROVER_assigns(iora_i, min_ttl) \
+  __CPROVER_loop_invariant(iora_i <= result->vec.n && min_ttl <= __CPROVER_loop_entry(min_ttl)) \
+  __CPROVER_loop_invariant((GSEC == (k) - 1 && GI < iora_i) ==> min_ttl <= result->vec.p[GI].ttl) \
+  __CPROVER_decreases(result->vec.n - iora_i))
+#define IORA_LOOP_DnsCache_calculateResultTtl_1 TTL_LOOP(1, answers)
+#define IORA_LOOP_DnsCache_calculateResultTtl_2 TTL_LOOP(2, authority)
+#define IORA_LOOP_DnsCache_calculateResultTtl_3 TTL_LOOP(3, additional)
+#define IORA_LOOP_DnsCache_calculateResultTtl_4 TTL_LOOP(4, a_records)
+#define IORA_LOOP_DnsCache_calculateResultTtl_5 TTL_LOOP(5, aaaa_records)
+#define IORA_LOOP_DnsCache_calculateResultTtl_6 TTL_LOOP(6, srv_records)
+#define IORA_LOOP_DnsCache_calculateResultTtl_7 TTL_LOOP(7, naptr_records)
+#define IORA_LOOP_DnsCache_calculateResultTtl_8 TTL_LOOP(8, cname_records)
+#define IORA_LOOP_DnsCache_calculateResultTtl_9 TTL_LOOP(9, mx_records)
+#define IORA_LOOP_DnsCache_calculateResultTtl_10 TTL_LOOP(10, txt_records)
+#define IORA_LOOP_DnsCache_calculateResultTtl_11 TTL_LOOP(11, ptr_records)
+#define IORA_LOOP_DnsCache_calculateResultTtl_12 TTL_LOOP(12, soa_records)
+
+/* calculateNegativeTtl: loop 1 returns in its first iteration; loop 2 looks for the first SOA of the authority section */
+#define IORA_LOOP_DnsCache_calculateNegativeTtl_1 IORA_LC( \
+  __CPROVER_assigns(iora_i) \
+  __CPROVER_loop_invariant(iora_i == 0) \
+  __CPROVER_decreases(result->soa_records.n - iora_i))
+#define IORA_LOOP_DnsCache_calculateNegativeTtl_2 IORA_LC( \
+  __CPROVER_assigns(iora_i) \
+  __CPROVER_loop_invariant(iora_i <= result->authority.n && (GI < iora_i ==> result->authority.p[GI].type != DnsType_SOA)) \
+  __CPROVER_decreases(result->authority.n - iora_i))
